@@ -96,6 +96,17 @@ def C14(tier, rng):
         op = 'enc.dns %s' % pmsg(m)
         for _ in range(3):
             cs.append(Case(op, 'repeat'))
+    # inputs on which a decoder could report DIFFERENT errors depending on an iteration order: several SvcParam keys
+    # duplicated at once, several options / items invalid at once (the first offence in wire order is the answer, always)
+    for keys in ((3, 3, 2, 2), (2, 2, 3, 3), (3, 2, 3, 2), (7, 8, 9, 7, 8, 9), (1, 3, 4, 6, 1, 3, 4, 6), (65535, 2, 65535, 2), (5, 4, 5, 4, 3, 3)):
+        body = {1: b'\2h2', 2: b'', 3: b'\1\xbb', 4: b'\1\2\3\4', 5: b'\0\0', 6: bytes(16), 7: b'x', 8: b'y', 9: b'z', 65535: b''}
+        w = svcb_rr(65, 1, b'\0', [pw(k, body[k]) for k in keys])
+        m = b'\0\1\x81\x80\0\0\0\1\0\0\0\0' + w
+        for th in (1, 2, 16):
+            cs.append(Case('mt.dns %d %d %s' % (th, sz(tier, 64, 400), hx(m)), 'mt-dup-keys'))
+        for _ in range(sz(tier, 12, 60)):
+            cs.append(Case('dec.dns %s' % hx(m), 'repeat-dup-keys'))
+
     return cs
 
 # ---------------------------------------------------------------- C15
@@ -314,6 +325,14 @@ def C18(tier, rng):
                     else: rrs = [rr_of(ty, earlier, (b'p',))]
                     m = msg_with(rrs + [rr_of(ty, n, owner)], qs=qs)
                     cs.append(enc_case(m, 'c18-%d-%s' % (ty, pos)))
+    # the same rule for the ELEMENT encoders (`RR::encode`, the record structs' own `encode`): the owner then starts at offset
+    # 0 of the buffer, the RDATA name is the owner, below it, or a tail of it
+    for ty in NEWTYPES:
+        for owner in (base, (b'example', b'org'), (b'a',), (b'HOST', b'Example', b'ORG')):
+            for n in (owner, (b'x',) + owner, owner[1:], (b'y', b'z') + owner[1:], tuple(l.lower() for l in owner), ()):
+                rr = rr_of(ty, n, owner)
+                cs.append(Case('enc.rr %s' % prr(rr), 'c18-element'))
+                cs.append(Case('enc.struct %s' % prr(rr), 'c18-element'))
     # the RDATA name (or a tail of it) already occurs earlier in a form that ENDS IN A POINTER
     for ty in NEWTYPES:
         for n in (base, (b'x',) + base, base[1:]):
